@@ -114,7 +114,7 @@ def _jump_targets(ck, fx, cg):
           "%d label obligation(s) (fresh group per construct, emitted once, strictly increasing counter, one generator) hold" % len(labs) if not bad else
           "%d label obligation(s) violated, first: %s — %s: a Branch/Jump can land in another construct, so a branch not taken or a loop body of another method runs" % (
               len(bad), bad[0]["key"], bad[0]["detail"][:200]))
-    ck.floor("R13.jumps", "label obligations evaluated", len(labs), 8)
+    ck.floor("R13.jumps", "label obligations evaluated", len(labs), 3)
 
 
 SIDE_EFFECT_FREE = {"Integer", "Boolean", "Null", "AccessVariable"}
@@ -154,6 +154,7 @@ def _describe(ev):
 def _match_expected(evs, expected):
     """events (rec / foreach) vs expected child list; returns (ok, why)"""
     got = [e for e in evs if e[0] in ("rec", "foreach")]
+    got = _merge_split(got)
     if len(got) != len(expected):
         return False, "children evaluated: %s, expected order %s" % (_describe(got), expected)
     for g, want in zip(got, expected):
@@ -167,6 +168,37 @@ def _match_expected(evs, expected):
             if g[0] != "rec" or g[1] != V(want):
                 return False, "expected child `%s` here, found %s (order %s, expected %s)" % (want, _describe([g]), _describe(got), expected)
     return True, "children evaluated in order %s, once each" % (expected,)
+
+
+class _Whole:
+    """`for x in init { c(x) }; c(last)` over `xs.split_last()` (or first / rest) — the same traversal as `for x in xs`"""
+
+    def __init__(self, it, whole):
+        self.variants, self.eff = it.variants, it.eff
+        self.base = ("iter", whole, it.base[2], it.base[3])
+
+
+def _merge_split(got):
+    out = []
+    i = 0
+    while i < len(got):
+        g = got[i]
+        nxt = got[i + 1] if i + 1 < len(got) else None
+        if g[0] == "foreach" and nxt is not None and nxt[0] == "rec" and g[1].base[0] == "iter":
+            b = g[1].base[1]
+            if b[0] == "app" and b[1] == "init_of" and nxt[1] == ("app", "last_of", b[2]):
+                out.append(("foreach", _Whole(g[1], b[2][0])))
+                i += 2
+                continue
+        if g[0] == "rec" and nxt is not None and nxt[0] == "foreach" and nxt[1].base[0] == "iter":
+            b = nxt[1].base[1]
+            if b[0] == "app" and b[1] == "rest_of" and g[1] == ("app", "first_of", b[2]):
+                out.append(("foreach", _Whole(nxt[1], b[2][0])))
+                i += 2
+                continue
+        out.append(g)
+        i += 1
+    return out
 
 
 def _forward_each(it, base_term):
